@@ -101,9 +101,13 @@ def run_node_modules(jobs, tag, shards=NODE_SHARDS, timeout_ms=3000, wall=3000):
                 continue
             done = collect(s)
             if done < len(s["todo"]):
-                # died on job `done`
-                results[s["todo"][done]] = {"fatal": "node-died:rc=%s" % rc}
-                s["todo"] = s["todo"][done + 1:]
+                if rc == 77:
+                    # the runner left after a job it could not drain: fresh process for the rest
+                    s["todo"] = s["todo"][done:]
+                else:
+                    # died on job `done`
+                    results[s["todo"][done]] = {"fatal": "node-died:rc=%s" % rc}
+                    s["todo"] = s["todo"][done + 1:]
                 if s["todo"] and s["gen"] < 500:
                     start(s)
                     nxt.append(s)
@@ -290,6 +294,11 @@ def spec_model(case, rb):
         if got != exp:
             bad.append(("spec-model-outcome", "%s(%s): boa %s, specification algorithm %s" % (e["what"], e["name"], e["state"], o)))
     ran = _bodies(rb.get("trace", []))
+    if meta["throws"] and any(meta["tla"].values()):
+        # Whether a member of a cycle still runs after another member's asynchronous dependency was rejected depends
+        # on which completion comes first (GatherAvailableAncestors skips modules whose cycle root already holds an
+        # error): the model has no clock, only the outcomes above are comparable.
+        return bad, True
     if set(ran) != set(sim.executed):
         bad.append(("spec-model-bodies", "bodies run: boa %s, specification algorithm %s" % (ran, sim.executed)))
     elif not any(meta["tla"].get(n) for n in sim.executed) and ran != sim.executed:
@@ -384,9 +393,11 @@ def judge(case, rb, rn):
     """-> (violations [(kind, text)], inconclusive reason or None, node verdict)"""
     f = rb.get("fatal")
     if f:
-        if f.startswith("panic:") or f.startswith("died:"):
+        external = ("died:SIGTERM", "died:SIGKILL", "died:SIGINT", "died:SIGHUP", "died:SIGSTOP")
+        if f.startswith("panic:") or (f.startswith("died:") and not f.startswith(external)):
             return [("panic", f[:300])], None, "n/a"
-        return [], "boa:" + f.split(":")[0], "n/a"
+        # SIGTERM / SIGKILL come from outside (another user's pkill, the OOM killer): not an observation of the engine
+        return [], "boa:" + ":".join(f.split(":")[:2]), "n/a"
     bad = invariants(case, rb)
     sb, _ = spec_model(case, rb)
     bad += sb
@@ -561,6 +572,30 @@ def finding_cases(k):
     return [(_fixed_case(c, "%s-%d" % (k["id"], i)), c) for i, c in enumerate(k.get("reproducer", {}).get("cases", []))]
 
 
+def deadlock_cases():
+    """`await import()` of a module that needs the importer to finish first never settles, by specification: the
+    one situation where a pending promise with a drained queue is right (both engines must agree on it)"""
+    def body(n, imports, extra):
+        return "%sprint('s %s');\n%sprint('e %s');\n" % (imports, n, extra, n)
+
+    def adyn(me, d):
+        return ("try { const ns = await import('./%s.mjs'); print('%s adyn %s ok', typeof ns); } "
+                "catch (e) { print('%s adyn %s err', __show(e)); }\n" % (d, me, d, me, d))
+    out = []
+    for cid, mods, static, dyn in (
+        ("dl-self", {"a": body("a", "", adyn("a", "a"))}, {"a": []}, {"a": ["a"]}),
+        ("dl-importer", {"a": body("a", "import './b.mjs';\n", ""), "b": body("b", "", adyn("b", "a"))},
+         {"a": ["b"], "b": []}, {"b": ["a"]}),
+    ):
+        names = sorted(mods)
+        job = {"id": cid, "modules": {n + ".mjs": src for n, src in mods.items()}, "entry": "a.mjs", "re_evaluate": False}
+        meta = {"names": names, "static": static, "dyn": dyn, "tla": {n: (1 if n in dyn else 0) for n in names}, "throws": {},
+                "linkfail": None, "parsefail": None, "entry": "a", "second": None, "deadlock": True,
+                "features": ["deliberate-deadlock", "dynamic-import-await", "tla"]}
+        out.append(_fixed_case({"job": job, "meta": meta, "name": cid}, cid))
+    return out
+
+
 def neighbour_cases(findings):
     """shapes next to the reproducers that hold on this tree (they delimit the avoided classes): ordinary cases"""
     out = []
@@ -678,9 +713,7 @@ def run(tier, seed):
     if not runner.node_available():
         chk.inconc("node-unavailable")
     r = Rng(seed, "c17")
-    nb = neighbour_cases(findings)
-    if nb:
-        process(cx, nb, "nb")
+    process(cx, neighbour_cases(findings) + deadlock_cases(), "fixed")
     n_exh, n_reps, n_node = stream_exhaustive(cx, 4 if thorough else 3, 60000 if thorough else 5000)
     stream_random(cx, r.fork("random"), 40000 if thorough else 1500, avoid)
     replay_known(cx, findings)
